@@ -40,17 +40,26 @@ is_pytest = os.path.basename(demo).startswith('test_')
 demo_cmd = ('%s -m pytest %s --rootdir=%s -c %s/setup.cfg -p no:cacheprovider -q'
             % (PY, demo, wt, wt)) if is_pytest else '%s %s' % (PY, demo)
 
-rc, patch = sh('git diff -- django_evolution', cwd=wt)
-assert patch.strip(), 'no change applied in worktree'
+# git stash is shared between worktrees: never use it.  The agent's
+# SEED_PATCH.diff is authoritative; re-create the worktree state from it.
+patch = open(os.path.join(wt, 'SEED_PATCH.diff')).read()
+assert patch.strip(), 'empty SEED_PATCH.diff'
+tmp_patch = os.path.join(wt, '.seed_confirm.patch')
+open(tmp_patch, 'w').write(patch)
+sh('git checkout -- django_evolution', cwd=wt)
+rc, out = sh('git apply %s' % tmp_patch, cwd=wt)
+assert rc == 0, 'SEED_PATCH.diff does not apply to a clean worktree: %s' % out
+rc, patch2 = sh('git diff -- django_evolution', cwd=wt)
+patch = patch2
 meta = {'seed_id': sid, 'property': prop, 'demo': demo, 'demo_cmd': demo_cmd}
 
 rc1, out1 = sh(demo_cmd, cwd=wt)
 meta['demo_with_change'] = {'rc': rc1, 'tail': out1.strip().splitlines()[-3:]}
-sh('git stash -q -- django_evolution', cwd=wt)
+sh('git apply -R %s' % tmp_patch, cwd=wt)
 try:
     rc0, out0 = sh(demo_cmd, cwd=wt)
 finally:
-    rcp, outp = sh('git stash pop -q', cwd=wt)
+    rcp, outp = sh('git apply %s' % tmp_patch, cwd=wt)
 meta['demo_without_change'] = {'rc': rc0, 'tail': out0.strip().splitlines()[-3:]}
 print('demo with change rc=%d, without rc=%d' % (rc1, rc0))
 if not skip_suite:
